@@ -2,6 +2,7 @@ package main
 
 import (
 	"fmt"
+	"github.com/preslavrachev/gomjml/mjml"
 	"regexp"
 	"sort"
 	"strconv"
@@ -169,6 +170,18 @@ func runC11(res *Result, tier string, seed int64, replay string) {
 			})
 			docs = append(docs, doc{fmt.Sprintf("gen:%d", i), d.MJML()})
 		}
+		// a web font used in one place only: inside a wrapper, a hero, a group, a full-width section, on a sub-element
+		for pn, p := range map[string][2]string{
+			"wrapper": {`<mj-wrapper><mj-section><mj-column>`, `</mj-column></mj-section></mj-wrapper>`}, "hero": {`<mj-hero>`, `</mj-hero>`},
+			"group": {`<mj-section><mj-group><mj-column>`, `</mj-column></mj-group></mj-section>`}, "column": {`<mj-section><mj-column>`, `</mj-column></mj-section>`},
+			"fw-wrapper": {`<mj-wrapper full-width="full-width"><mj-section><mj-column>`, `</mj-column></mj-section></mj-wrapper>`},
+		} {
+			for fi, leaf := range []string{`<mj-text font-family="Roboto">r</mj-text>`, `<mj-button font-family="Lato" href="u">b</mj-button>`,
+				`<mj-social font-family="Montserrat"><mj-social-element name="facebook" href="h">F</mj-social-element></mj-social>`,
+				`<mj-accordion><mj-accordion-element font-family="Open Sans"><mj-accordion-title>T</mj-accordion-title><mj-accordion-text>X</mj-accordion-text></mj-accordion-element></mj-accordion>`} {
+				docs = append(docs, doc{fmt.Sprintf("font-in-%s/%d", pn, fi), "<mjml><mj-body><mj-section><mj-column><mj-image src=\"i.png\"/></mj-column></mj-section>" + p[0] + leaf + p[1] + "</mj-body></mjml>"})
+			}
+		}
 		// every component with every one of its attributes set (one at a time; pairs at the thorough tier): classes, ids, fonts and
 		// component CSS must stay in step whatever markup path the attribute selects
 		for _, ld := range attrSweepDocs() {
@@ -187,13 +200,30 @@ func runC11(res *Result, tier string, seed int64, replay string) {
 		html string
 	}
 	var outs []rendered
-	for _, d := range docs {
+	for di, d := range docs {
 		h, err := renderPlain(d.src)
 		if h == "" || h == "MJML badly formatted" {
 			_ = err
 			continue
 		}
 		outs = append(outs, rendered{d, h})
+		// the same document through the component-tree API, rendered twice: the SECOND output is a document like any other
+		if di%2 == 0 || strings.HasPrefix(d.name, "font-in-") {
+			safely(func() {
+				ast, perr := mjml.ParseMJML(d.src)
+				if perr != nil {
+					return
+				}
+				c, cerr := mjml.NewFromAST(ast)
+				if cerr != nil {
+					return
+				}
+				mjml.RenderComponentString(c)
+				if h2, e2 := mjml.RenderComponentString(c); e2 == nil && h2 != "" {
+					outs = append(outs, rendered{doc{d.name + "|tree-second-render", d.src}, h2})
+				}
+			})
+		}
 	}
 	parallel(8, len(outs), func(i int) {
 		o := outs[i]
